@@ -104,7 +104,9 @@ def gen_unary(rng, inner=ECHO, nmax=8, names=None):
 
 def gen_ma(rng):
     """a moving average over echo for pfe/eft"""
-    k = rng.choice(["ema", "sma", "ema", "alma", "echo"])
+    # (not only convex averages: a SuperSmoother / LaguerreFilter / Ema with a custom weight overshoots its input range, which is
+    # what the clamp inside EhlersFisherTransform is for — wave-5 seeds C09e, C15e)
+    k = rng.choice(["ema", "sma", "ema", "alma", "echo", "ss", "ss", "lagf", "emaa"])
     if k == "echo":
         return ECHO
     return mk(k, ECHO, gen_params(rng, k, 4))
